@@ -159,6 +159,33 @@ func c09(r *core.Run) {
 					}
 				}
 			}
+			// the lookup that decides "no open bid" must use the very key the record is written under
+			var getter *ssa.Call
+			allInstrs(unit, func(in ssa.Instruction) {
+				if c, ok := in.(*ssa.Call); ok {
+					for _, cal := range p.Callees(c) {
+						if gi := p.StoreGetter(cal); gi != nil && gi.Module+"/"+gi.Prefix == rnsBids {
+							getter = c
+						}
+					}
+				}
+			})
+			if getter == nil {
+				r.Violation("C09/R3", h.Key()+":open-bid-lookup", p.InstrPos(setCall), "the bid handler never looks up an existing bid before writing")
+			} else if al := recordAlloc(rec); al != nil {
+				var idx ssa.Value
+				for _, st := range fieldStores(al, "Index") {
+					idx = st.Val
+				}
+				ga := dataArgs(getter)
+				tb := core.NewTermBuilder(p)
+				okKey := idx != nil && len(ga) == 1 && tb.Term(ga[0]) == tb.Term(idx)
+				detail := ""
+				if idx != nil && len(ga) == 1 {
+					detail = "lookup " + tb.Term(ga[0]) + " vs written " + tb.Term(idx)
+				}
+				r.Check(okKey, "C09/R3", h.Key()+":lookup-key=written-key", p.InstrPos(getter), "open-bid lookup key and written key are the same term", "the open bid is looked up under a different key than the new bid is written under, so an existing bid can be overwritten without being found and refunded: "+detail)
+			}
 			bad := core.PathExists(unit, removed, setCall, nil)
 			r.Check(!bad, "C09/R3", h.Key()+":overwrite-without-refund", p.InstrPos(setCall), "bid written only if none existed or after refunding the old one", "a second bid by the same account on the same name overwrites the first without refunding it: the first escrow is stranded in the module account")
 		}
